@@ -62,10 +62,21 @@ def build_harness():
 
 
 def workdir(name):
+    """scratch directory of this run; removed when the process exits (VERIF_KEEP_WORK=1 keeps it), and so are the directories
+    that runs of the same check left behind when they were killed.  Replay files live in work/replay and survive."""
+    import atexit
+    os.makedirs(WORKROOT, exist_ok=True)
+    for old in os.listdir(WORKROOT):
+        if old.startswith(name + "-") and old[len(name) + 1:].isdigit():
+            pid = int(old[len(name) + 1:])
+            if pid != os.getpid() and not os.path.exists("/proc/%d" % pid):
+                shutil.rmtree(os.path.join(WORKROOT, old), ignore_errors=True)
     d = os.path.join(WORKROOT, "%s-%d" % (name, os.getpid()))
     if os.path.exists(d):
         shutil.rmtree(d)
     os.makedirs(d)
+    if not os.environ.get("VERIF_KEEP_WORK"):
+        atexit.register(lambda: shutil.rmtree(d, ignore_errors=True))
     return d
 
 
